@@ -737,6 +737,12 @@ func genC04(tier string, seed uint64) {
 			}
 		}
 	}
+	// redis: arrays nested around the depth limit (the request is rejected beyond it, reported below it)
+	for _, k := range []int{1, 5, 30, 31, 32, 33, 34, 40} {
+		b := []byte("*2\r\n$3\r\nGET\r\n" + strings.Repeat("*1\r\n", k) + "$1\r\nx\r\n" + "*1\r\n$4\r\nPING\r\n")
+		runSeg("seg", "redis", [][]byte{b}, nil, false)
+		runSeg("seg", "redis", cutAt(b, []int{len(b) / 2, len(b) - 3}), nil, false)
+	}
 	// raw and mutated streams: segmentation independence on anything (ftp, memcached, redis through the model too)
 	for i := 0; i < nDial*4; i++ {
 		g := gens[i%len(gens)]
